@@ -223,8 +223,12 @@ def shape_S(rng):
             b = coeff()
         if a == pconst(1):
             bs.append(b)
-        extra.append("lin=%s;%s" % (ptext(a), ptext(b)))
-        A = pmul(A, psub(pmul(a, Y), b))
+        # a repeated factor now and then: the square-free factorisation then returns several factors whose root
+        # lists interleave (exercises the sort / de-duplication of the per-factor lists)
+        reps = 2 if (rng.random() < 0.2 and i + 1 < nlin) else 1
+        for _ in range(reps):
+            extra.append("lin=%s;%s" % (ptext(a), ptext(b)))
+            A = pmul(A, psub(pmul(a, Y), b))
     if useq:
         v = rng.choice(xs)
         X = pvar(v)
@@ -312,7 +316,20 @@ def small_enough(case):
         return False
     y = main[1].split(",")[-1]
     algvars = {main[4 + 2 * i] for i in range(int(main[3])) if main[5 + 2 * i][0] in "ra"}
+    lowvars = set()
     for t in terms:
+        for f in t.split("*")[1:]:
+            if f[1:].split("^")[0] != y:
+                lowvars.add(f[1:].split("^")[0])
+    many = len(lowvars) >= 3      # the library's multivariate gcd (square-free factorisation) swells quickly with 3 parameters
+    if many and len(terms) > 12:
+        return False
+    for t in terms:
+        if many:
+            for f in t.split("*")[1:]:
+                v, e = f[1:].split("^")
+                if int(e) > (3 if v == y else 2):
+                    return False
         tot = 0
         for f in t.split("*")[1:]:
             v, e = f[1:].split("^")
@@ -356,8 +373,9 @@ def gen_cases(rng, n, op="iso", light=False):
 
 def generate(rng, tier, corpus_only=False):
     # the hand-written boundary cases HAND are in corpus/C11.txt, which every run executes first
-    n = 600 if tier == "quick" else 6000
-    return gen_cases(rng, n)
+    n = 480 if tier == "quick" else 3600
+    # op isof: the per-factor root lists against the extracted assembly model (sort / de-duplicate / exit)
+    return gen_cases(rng, n) + gen_cases(rng, n // 4, "isof")
 
 
 def _parts(case):
@@ -390,4 +408,18 @@ ASSUMPTIONS = ["the polynomial has main variable y, the top of the variable orde
                "degrees in y <= 5 and at most two irrational parameters per case (cost of the exact reference arithmetic)"]
 TRUSTED = ["reference real algebraic arithmetic coq/RefAlg.v (Sturm sequences, resultants; extracted, no theorems) and the "
            "OCaml glue ocaml/feas_common.ml (substitution of rationals, elimination, factor-structure check)"]
-TIMEOUT = 600
+TIMEOUT = 2400
+
+
+def extra_coverage(cases, couts, mouts):
+    """how the model side disposed of the cases: checked / skipped (no exact reference available) / out of fuel"""
+    d = {}
+    for m in mouts:
+        k = "none" if m is None else ("checked" if m.startswith("CHECK") else m.split()[0].lower())
+        d[k] = d.get(k, 0) + 1
+    roots = {}
+    for o in couts:
+        if o and o.startswith("R "):
+            n = o.split()[1]
+            roots[n] = roots.get(n, 0) + 1
+    return {"model_disposition": d, "cases_by_number_of_real_roots": roots}
